@@ -262,7 +262,7 @@ func timeCase(c *mon.Ctx, t time.Time, class string) {
 func run(c *mon.Ctx) {
 	c.Rule("EBPs built from ground truth by a reference encoder: all 256 flag bytes x both flavours x grouping chains of 1..8 ids x reserved tails (0..4, occasionally up to 149 bytes), decoded, compared getter by getter, re-encoded; the same field values built through the setter API and round-tripped; instants over the NTP-representable range at second / era / fraction boundaries and PRNG-chosen. distinct non-trivial = distinct (flavour, flags byte, chain length, has reserved tail) / (time boundary class)")
 	c.Assume("EBPs stay within 181 bytes (what fits in a TS adaptation field); the library's flag setters are set-only so built objects never clear a flag; EBPSuccessReadTime (wall clock) is ignored")
-	per := c.N(12, 600)
+	per := c.N(12, 20000)
 	c.Exhaustive("all 256 flag bytes x both flavours", 512)
 	c.Stream("by-flags", 512, func(i int, r *gen.Rand) {
 		cable, flags := i >= 256, byte(i)
@@ -286,7 +286,7 @@ func run(c *mon.Ctx) {
 			timeCase(c, time.Unix(sec, int64(ns)).UTC(), fmt.Sprintf("boundary/sec=%d/ns=%d", sec, ns))
 		}
 	})
-	c.Stream("time-random", c.N(2000, 100000), func(i int, r *gen.Rand) {
+	c.Stream("time-random", c.N(2000, 4000000), func(i int, r *gen.Rand) {
 		for k := 0; k < 50; k++ {
 			sec := lo.Unix() + int64(r.Uint64()%uint64(span))
 			ns := r.Intn(1000000000)
